@@ -9,7 +9,7 @@ from verifkit.mon.probes import inside
 from verifkit.ref.symbolic import RefModel
 
 
-def build_sim(spec, theta, x0, t0=None, backend="lambda", pre_tau=None, epsilon=None, grown=None):
+def build_sim(spec, theta, x0, t0=None, backend="lambda", pre_tau=None, epsilon=None, grown=None, forms=None):
     """grown=(rng, k): build the first k states, evaluate, then add the remaining states and processes (event order is kept by
     permuting the spec in place beforehand - see maybe_grown)."""
     with contextlib.redirect_stdout(io.StringIO()):
@@ -18,7 +18,14 @@ def build_sim(spec, theta, x0, t0=None, backend="lambda", pre_tau=None, epsilon=
         else:
             m = G.build(spec, backend=backend)
     m.parameters = list(theta)
-    m.initial_values = (list(x0), np.float64(0.0) if t0 is None else t0)
+    # the initial state as a caller may hold it (forms = rng): list of ints, list of floats, integer / float ndarray, tuple
+    xarg = list(x0)
+    if forms is not None:
+        f = forms.choice(["int-list", "int-list", "float-list", "int-array", "float-array", "tuple"])
+        xarg = {"int-list": list(x0), "float-list": [float(v) for v in x0], "int-array": np.array(x0, dtype=int),
+                "float-array": np.array(x0, dtype=float), "tuple": tuple(x0)}[f]
+        m._verif_x0_form = f
+    m.initial_values = (xarg, np.float64(0.0) if t0 is None else t0)
     if pre_tau is not None:
         m.pre_tau = pre_tau
     if epsilon is not None:
